@@ -93,27 +93,15 @@ func minMaxDist(p geom.Point, r *geom.Bounds) float64 {
 		return r.Max.Y
 	}
 
-	// This formula can be computed in linear time by precomputing
-	// S = sum{1<=i<=n}(|pi - rMi|^2).
-
-	S := 0.0
-	d := p.X - rMX()
-	S += d * d
-	d = p.Y - rMY()
-	S += d * d
-
-	// Compute MinMaxDist using the precomputed S.
-	min := math.MaxFloat64
-	d1 := p.X - rMX()
-	d2 := p.X - rmX()
-	d = S - d1*d1 + d2*d2
-	if d < min {
-		min = d
-	}
-	d1 = p.Y - rMY()
-	d2 = p.Y - rmY()
-	d = S - d1*d1 + d2*d2
-	if d < min {
+	// With two dimensions the two candidates are formed directly. (Computing
+	// them as S - far_k^2 + near_k^2 from the precomputed sum S of the far
+	// terms cancels catastrophically for very elongated boxes: the result
+	// came out below the true value, even below the minimum distance, and
+	// branches holding the nearest object were pruned.)
+	dxNear, dxFar := p.X-rmX(), p.X-rMX()
+	dyNear, dyFar := p.Y-rmY(), p.Y-rMY()
+	min := dxNear*dxNear + dyFar*dyFar
+	if d := dyNear*dyNear + dxFar*dxFar; d < min {
 		min = d
 	}
 
